@@ -42,6 +42,11 @@ MUTANTS = [
      "a / -b restated with the negation kept in the denominator"),
     ("rules-rs-parent", "Rules.v", "is_k KSub node && (match par with None => true | Some _ => is_k KEq par || is_k KAdd par end)", "is_k KSub node && true", "C06",
      "restate-subtraction accepted below any parent"),
+    ("plans-rs-keep", "Plans.v", "| S_SUB => Some (PBin KAdd (PKeep [DL]) (PUn UNeg (PKeep [DR])))", "| S_SUB => Some (PBin KAdd (PKeep [DL]) (PUn UNeg (PNew r)))", "C07",
+     "plan of restate-subtraction says the subtrahend is copied (the code re-uses the object)"),
+    ("plans-comm-chain", "Plans.v", "if chain then POld [] (POld [DL] (PKeep [DL;DL]) (PKeep [DR])) (PKeep [DL;DR]) else POld [] (PKeep [DR]) (PKeep [DL]) end)",
+     "if chain then POld [] (PBin k (PKeep [DL;DL]) (PKeep [DR])) (PKeep [DL;DR]) else POld [] (PKeep [DR]) (PKeep [DL]) end)", "C07",
+     "plan of the chained commutative swap allocates a new inner node (the code re-uses the left child's object)"),
     ("lexer-functions", "Lexer.v", "let here := if is_function_name v then", "let here := if false then", "C11", "sgn lexed as three variables"),
 ]
 
